@@ -73,6 +73,9 @@ type Scenario struct {
 	InitN    int    `json:"init_n,omitempty"`
 	InitLen  int    `json:"init_len,omitempty"`
 	InitSeed int    `json:"init_seed,omitempty"`
+	// InitPerm is the permission of the initial file: 644, 666 (renameio
+	// then has to fchmod its temporary file) or 600.
+	InitPerm int `json:"init_perm,omitempty"`
 	// LegacySchema is the schema_version of a legacy configuration file.
 	LegacySchema int    `json:"legacy_schema,omitempty"`
 	Saves        []Save `json:"saves"`
@@ -137,6 +140,7 @@ func Gen(t *rapid.T, tier string) any {
 	if sc.Init != "absent" {
 		sc.InitN, sc.InitLen = genSize(t, tier, sc.Kind, "init")
 		sc.InitSeed = rapid.IntRange(0, 9).Draw(t, "init_seed")
+		sc.InitPerm = rapid.SampledFrom([]int{644, 644, 666, 600}).Draw(t, "init_perm")
 		if sc.Kind == "config" && sc.Init == "legacy" {
 			sc.LegacySchema = rapid.SampledFrom(legacySchemas).Draw(t, "legacy_schema")
 		}
@@ -385,7 +389,17 @@ func runHelper(base string, seq int, sc *Scenario, init map[string][]byte, inj *
 	}
 	r.roots = []string{r.work, r.tmp}
 	for rel, data := range init {
-		if err := os.WriteFile(filepath.Join(r.work, rel), data, 0o644); err != nil {
+		perm := os.FileMode(0o644)
+		switch sc.InitPerm {
+		case 666:
+			perm = 0o666
+		case 600:
+			perm = 0o600
+		}
+		if err := os.WriteFile(filepath.Join(r.work, rel), data, perm); err != nil {
+			return nil, err
+		}
+		if err := os.Chmod(filepath.Join(r.work, rel), perm); err != nil {
 			return nil, err
 		}
 	}
@@ -1165,6 +1179,6 @@ var Prop = &kernel.Property{
 		"stale_version_state", "loader_ran",
 		"inject_on_open", "inject_on_write", "inject_on_fsync", "inject_on_fchmod", "inject_on_close", "inject_on_rename",
 		"fault_dest_stays_old_failure_reported", "fault_dest_new_failure_reported", "fault_tolerated_save_succeeded",
-		"dest_absent_after_save", "save_syscalls_on_other_thread",
+		"dest_absent_after_save",
 	},
 }
